@@ -392,7 +392,8 @@ class Session:
                 if explicit is not None and h1 != h0:
                     raise Violation("C13/selected-engine-used-despite-explicit", f"{where}: a spy engine was used during to_function")
                 F2 = self.neutral(kind, lambda: eng2.to_function(net2, T=T, more_out=op.get("more_out", False)))
-                if dyn.eval_function(F1, op["vals"]) != dyn.eval_function(F2, op["vals"]):
+                if dyn.eval_function_keyed(F1, dyn.symbol_keys(self.U, self.net), op["vals"]) != dyn.eval_function_keyed(
+                        F2, dyn.symbol_keys(U2, net2), op["vals"]):
                     raise Violation(f"C13/result-differs:{kind}", f"{where}: compiled function differs from an undisturbed twin's")
             self.res.probes[f"twin_compared:{kind}"] += 1
         self.res.nontrivial = True
